@@ -10,6 +10,7 @@ package main
 import (
 	"bytes"
 	"fmt"
+	"os"
 	"sort"
 	"strings"
 	"time"
@@ -87,8 +88,19 @@ type QRes struct {
 	Panic      string
 }
 
+// the case whose trie is being queried (for the watchdog's replay)
+var curTrieCase *TrieCase
+
 func runQuery(st *trie.SlimTrie, spec *EncSpec, q string) QRes {
 	var r QRes
+	tcw := curTrieCase
+	WatchStart("GetID/Get/RangeGet/Search on query "+hxs(q), func() interface{} {
+		if tcw == nil || theCtx == nil {
+			return map[string]string{"query": hxs(q)}
+		}
+		return tcw.replay(theCtx.PID, q, false, "no return", "an answer")
+	})
+	defer WatchEnd()
 	note := func(s, p string) bool {
 		if s == "PANIC" {
 			r.Panic += p + "; "
@@ -205,6 +217,21 @@ func reload(st *trie.SlimTrie, spec *EncSpec) (*trie.SlimTrie, []byte, error) {
 	case <-time.After(60 * time.Second):
 		if used {
 			reloadUsedHung = true // reported once by the caller; do not wait a minute on every later case
+		}
+		if theCtx != nil {
+			// the runaway goroutine cannot be stopped and may allocate without bound: record the
+			// finding with its input, write the evidence and leave
+			short := func(b []byte) string {
+				if len(b) > 3000 {
+					return fmt.Sprintf("%s..(%d bytes)", hx(b[:64]), len(b))
+				}
+				return hx(b)
+			}
+			theCtx.Or.Violate(theCtx.PID+":load-does-not-return", fmt.Sprintf("%s: Marshal/Unmarshal did not return within 60 s (loading into an instance already in use: %v, through proto.Unmarshal: %v)", theCtx.PID, used, viaProto),
+				map[string]string{"encoder": spec.Name, "first_stream": short(reloadPrev[spec.Name]), "second_stream": short(buf)})
+			theCtx.Close()
+			fmt.Printf("%s: evaluations=%d violations=%d (stopped at a load that does not return)\n", theCtx.PID, theCtx.Or.Evaluations, len(theCtx.Or.Violations))
+			os.Exit(0)
 		}
 		return nil, buf, fmt.Errorf("TIMEOUT: Marshal/Unmarshal (into a used instance: %v) did not return", used)
 	}
@@ -550,6 +577,7 @@ func (t *trieRun) genCase(c *Ctx, r *RNG, id string) *TrieCase {
 
 // evalCase builds, dumps, queries (fresh and loaded), runs the oracle; returns a finding or nil.
 func evalCase(c *Ctx, pid string, tc *TrieCase, emit bool) *finding {
+	curTrieCase = tc
 	if emit {
 		tc.WriteCase(c.Cases())
 	}
